@@ -345,6 +345,33 @@ func runInput(c *fw.Ctx, idx int, in Input, fixed []pattern, same []Input, other
 			cnt.compared.Add(1)
 		})
 	}
+	// H4: the bytes an encoding returned stay what they were while the library goes on working
+	// (other messages are decoded and encoded, the same message is encoded again)
+	if in.EP == nil || in.EP == epMessage || in.EP == epRelay {
+		for _, o := range others {
+			n++
+			guard("H4", "then-encode("+o.Name+")", func() {
+				m, err := decodeIn(in, append([]byte(nil), in.B...))
+				if err != nil {
+					return
+				}
+				b1 := m.encode()
+				keep := append([]byte(nil), b1...)
+				if m2, err := decodeIn(o, append([]byte(nil), o.B...)); err == nil {
+					_ = m2.encode()
+					_ = m2.snap()
+				}
+				_ = m.encode()
+				if !bytes.Equal(b1, keep) {
+					c.Report(fw.Violation{Fingerprint: versionOf(in) + ".ToBytes|returned-bytes-changed-by-later-calls", Order: order, Scope: "H4 then-encode(" + o.Name + ") (" + in.Name + ")", Input: fw.Hex(in.B),
+						Observed: fmt.Sprintf("bytes returned by ToBytes were %s and are now %s", fw.HexShort(keep), fw.HexShort(b1)),
+						Expected: "the encoding handed to the caller is the caller's: later decoding / encoding does not write into it",
+						Explain:  "ToBytes returned memory the library keeps using (a pooled or shared buffer)"})
+				}
+				cnt.compared.Add(1)
+			})
+		}
+	}
 	// H3
 	for _, o := range others {
 		n++
@@ -541,7 +568,8 @@ func Run(c *fw.Ctx) {
 	c.Scope("inputs", "dhcpv6", nv6, "dhcpv4", nv4, "not_accepted_by_the_library", cnt.notAccepted.Load(),
 		"families", "every corpus6 instance x {top of message, top of relay, 9 containers, 3 stacks}; NTP sub-option instances; corpus6.Messages (types x xids, relay chains depth 0..8, DHCPv4-in-DHCPv6, maximal lengths, long lists); chains; written-out compressed / partial names in options 24, 39, 56/3; selections of the C06 out-of-range list; DHCPv4 packets with every option read by a typed accessor (one per packet, all in one packet, split > 255, option 119 compressed), structural non-canonical DHCPv4 packets; the accessor packets inside option 87")
 	c.Scope("patterns", "fixed", pn, "next_packet", nextDesc, "next_packet_cases_per_history", nextTotal)
-	c.Scope("histories", "H1", "decode, snapshot, overwrite source, snapshot", "H2", "decode, encode, snapshot, overwrite the encoding, encode again + snapshot", "H3", fmt.Sprintf("decode, snapshot, decode one of %d other corpus entries into the same buffer, snapshot", kH3))
+	c.Scope("histories", "H1", "decode, snapshot, overwrite source, snapshot", "H2", "decode, encode, snapshot, overwrite the encoding, encode again + snapshot", "H3", fmt.Sprintf("decode, snapshot, decode one of %d other corpus entries into the same buffer, snapshot", kH3),
+		"H4", fmt.Sprintf("decode, encode and keep the bytes, decode+encode+print one of %d other corpus entries, encode the first again: the kept bytes are unchanged", kH3))
 	c.Extra("unstable_snapshots_skipped", cnt.unstable.Load())
 	for i := 0; i < len(corpus); i += 1 + len(corpus)/8 {
 		c.Sample(map[string]any{"input": corpus[i].Name, "bytes": fw.HexShort(corpus[i].B)})
